@@ -141,7 +141,7 @@ def run(idx, rep, tier):
         if init is None or init.node.args.vararg is None:
             continue
         va = init.node.args.vararg.arg
-        sup = [c for c in df.calls(init.node) if isinstance(c.func, ast.Attribute) and c.func.attr == "__init__" and "super()" in ast.unparse(c.func.value)]
+        sup = [c for c in df.calls(init.node) if df.is_super_init(c)]
         if not sup:
             continue
         b = df.bind_call(sup[0], ["dtype", "shape", "matmat", "annotations"])
@@ -307,19 +307,51 @@ def shape_validation(idx, rep):
         if init is None:
             rep.missing_anchor(f"{cname}.__init__")
             continue
-        sup_line = min([c.lineno for c in df.calls(init.node) if isinstance(c.func, ast.Attribute) and c.func.attr == "__init__" and "super()" in ast.unparse(c.func.value)] or [10**9])
+        # program order by position in the (normal-form) body, not by line number: inlined helper statements keep the lines of the helper
+        order = {id(x): i for i, x in enumerate(df.body_nodes(init.node))}
+        sup_line = min([order[id(c)] for c in df.calls(init.node) if df.is_super_init(c)] or [10**9])
         ok, why = False, "no comparison of the operands' shapes guards a raise/assert before the base constructor"
+        def is_shape_list(e, depth=0):
+            """a sequence of the operands' shapes: `[M.shape for M in Ms]` (also behind a name, a slice of it, list() / tuple())"""
+            if isinstance(e, ast.Name) and depth < 4:
+                v = df.resolve_value(init.node, e)
+                return v is not e and is_shape_list(v, depth + 1)
+            if isinstance(e, ast.Subscript) and isinstance(e.slice, ast.Slice):
+                return is_shape_list(e.value, depth + 1)
+            if isinstance(e, ast.Call) and isinstance(e.func, ast.Name) and e.func.id in ("list", "tuple") and len(e.args) == 1:
+                return is_shape_list(e.args[0], depth + 1)
+            return isinstance(e, (ast.ListComp, ast.GeneratorExp)) and isinstance(e.elt, ast.Attribute) and e.elt.attr == "shape"
+
+        def shape_names(loop):
+            """loop variables that ARE shapes (the loop runs over a sequence of shapes, possibly zipped)"""
+            out = set()
+            if loop is None:
+                return out
+            it = loop.iter
+            srcs = it.args if isinstance(it, ast.Call) and isinstance(it.func, ast.Name) and it.func.id == "zip" else [it]
+            tgts = loop.target.elts if isinstance(loop.target, ast.Tuple) else [loop.target]
+            if len(srcs) == len(tgts):
+                out |= {t.id for t, s_ in zip(tgts, srcs) if isinstance(t, ast.Name) and is_shape_list(s_)}
+            return out
+
+        def as_dims(e, shp):
+            """text of a compared expression with `<shape variable>[i]` written as `<variable>.shape[i]`"""
+            if isinstance(e, ast.Subscript) and isinstance(e.value, ast.Name) and e.value.id in shp:
+                return norm_idx(f"{e.value.id}.shape[{ast.unparse(e.slice)}]")
+            return norm_idx(ast.unparse(e))
+
         for n in df.body_nodes(init.node):
             test = None
-            if isinstance(n, ast.If) and any(isinstance(x, ast.Raise) for x in ast.walk(n)) and n.lineno < sup_line:
+            if isinstance(n, ast.If) and any(isinstance(x, ast.Raise) for x in ast.walk(n)) and order[id(n)] < sup_line:
                 test = n.test
-            elif isinstance(n, ast.Assert) and n.lineno < sup_line:
+            elif isinstance(n, ast.Assert) and order[id(n)] < sup_line:
                 test = n.test
             if test is None:
                 continue
             for cmp_ in [x for x in ast.walk(test) if isinstance(x, ast.Compare) and len(x.ops) == 1]:
-                l, r = norm_idx(ast.unparse(cmp_.left)), norm_idx(ast.unparse(cmp_.comparators[0]))
                 loop = next((p for p in parents(n, init.node) if isinstance(p, ast.For)), None)
+                shp = shape_names(loop)
+                l, r = as_dims(cmp_.left, shp), as_dims(cmp_.comparators[0], shp)
                 if what == "contracted":
                     if loop is None or not isinstance(loop.target, ast.Tuple) or len(loop.target.elts) != 2:
                         continue
@@ -331,7 +363,16 @@ def shape_validation(idx, rep):
                     elif {l, r} == {f"{a}.shape[0]", f"{b}.shape[1]"} or {l, r} == {f"{a}.shape[1]", f"{b}.shape[1]"} or {l, r} == {f"{a}.shape[0]", f"{b}.shape[0]"}:
                         why = f"`{ast.unparse(cmp_)}` compares the wrong pair of dimensions (the contracted ones are {a}.shape[-1] and {b}.shape[-2])"
                 else:
-                    if ".shape" in l + r and isinstance(cmp_.ops[0], (ast.NotEq, ast.Eq)) and "[" not in l + r:
+                    def whole_shape(e):
+                        if isinstance(e, ast.Attribute) and e.attr == "shape":
+                            return True
+                        if isinstance(e, ast.Name):
+                            if e.id in shp:
+                                return True
+                            v = df.resolve_value(init.node, e)
+                            return v is not e and (whole_shape(v) or (isinstance(v, ast.Subscript) and not isinstance(v.slice, ast.Slice) and is_shape_list(v.value)))
+                        return False
+                    if whole_shape(cmp_.left) and whole_shape(cmp_.comparators[0]) and isinstance(cmp_.ops[0], (ast.NotEq, ast.Eq)):
                         if loop is not None or "all(" in ast.unparse(test):
                             ok, why = True, f"`{ast.unparse(cmp_)}` over all terms guards the error"
         rep.decide(ok, "shape-validation", f"{cname}.__init__", why, detail="" if ok else "missing", locs=[idx.loc(init.module, init.node)])
